@@ -17,7 +17,7 @@ import gunicorn.workers.base_async as _basync
 import gunicorn.workers.gthread as _gthread
 import gunicorn.workers.sync as _sync
 
-from engine.stubs.recsock import CountLog, RecSock
+from engine.stubs.recsock import CountLog, RecSock, Stall
 
 _FIX = _dt.datetime(2026, 1, 1)
 
@@ -135,7 +135,8 @@ def thread_worker(cfg, app, max_requests=1 << 60, keep=0):
 
 class _Async(_basync.AsyncWorker):
     def timeout_ctx(self):
-        return contextlib.nullcontext()
+        # what ggevent / geventlet return: a timeout that ends the `with` block silently when it fires
+        return contextlib.suppress(Stall)
 
 
 def async_worker(cfg, app, max_requests=1 << 60):
